@@ -229,7 +229,120 @@ func (e *Engine) isZero(st *State, t types.Type, v Value) *Term {
 	return nil
 }
 
+// deepEq: reflect.DeepEqual on modelled values (pointers are followed, byte slices and strings
+// compared by content, nil and empty slices are different, maps only by identity)
+func (e *Engine) deepEq(st *State, a, b Value, depth int) *Term {
+	if depth > 10 {
+		unsupported("reflect.DeepEqual: nesting deeper than 10")
+	}
+	switch av := a.(type) {
+	case *Term:
+		bv, ok := b.(*Term)
+		if !ok || bv.S != av.S {
+			return False
+		}
+		return Eq(av, bv)
+	case VString:
+		bv, ok := b.(VString)
+		if !ok {
+			return False
+		}
+		return StringEq(av, bv)
+	case VPtr:
+		bv, ok := b.(VPtr)
+		if !ok {
+			return False
+		}
+		if av.Nil.IsTrue() || bv.Nil.IsTrue() {
+			return And(av.Nil, bv.Nil)
+		}
+		if av.Obj == bv.Obj && av.BIdx == nil && bv.BIdx == nil && pathStr(av.Path) == pathStr(bv.Path) {
+			return Or(And(av.Nil, bv.Nil), And(Not(av.Nil), Not(bv.Nil)))
+		}
+		inner := e.deepEq(st, e.load(st, av), e.load(st, bv), depth+1)
+		return Or(And(av.Nil, bv.Nil), And(Not(av.Nil), Not(bv.Nil), inner))
+	case VIface:
+		bv, ok := b.(VIface)
+		if !ok {
+			return False
+		}
+		if av.Nil.IsTrue() || bv.Nil.IsTrue() {
+			return And(av.Nil, bv.Nil)
+		}
+		if !types.Identical(av.Dyn, bv.Dyn) {
+			return And(av.Nil, bv.Nil)
+		}
+		return Or(And(av.Nil, bv.Nil), And(Not(av.Nil), Not(bv.Nil), e.deepEq(st, av.Val, bv.Val, depth+1)))
+	case VStruct:
+		bv, ok := b.(VStruct)
+		if !ok || len(bv.Fields) != len(av.Fields) {
+			return False
+		}
+		cs := make([]*Term, len(av.Fields))
+		for i := range cs {
+			cs[i] = e.deepEq(st, av.Fields[i], bv.Fields[i], depth+1)
+		}
+		return And(cs...)
+	case VArray:
+		bv, ok := b.(VArray)
+		if !ok || len(bv.Elems) != len(av.Elems) {
+			return False
+		}
+		cs := make([]*Term, len(av.Elems))
+		for i := range cs {
+			cs[i] = e.deepEq(st, av.Elems[i], bv.Elems[i], depth+1)
+		}
+		return And(cs...)
+	case VSlice:
+		bv, ok := b.(VSlice)
+		if !ok || av.Bytes != bv.Bytes {
+			return False
+		}
+		if av.Nil.IsTrue() || bv.Nil.IsTrue() {
+			return And(av.Nil, bv.Nil)
+		}
+		if av.Bytes {
+			return Or(And(av.Nil, bv.Nil), And(Not(av.Nil), Not(bv.Nil), e.bytesEq(st, av, bv, 80)))
+		}
+		al, ok1 := st.Conc(av.Len)
+		bl, ok2 := st.Conc(bv.Len)
+		ao, ok3 := st.Conc(av.Off)
+		bo, ok4 := st.Conc(bv.Off)
+		if !(ok1 && ok2 && ok3 && ok4) {
+			unsupported("reflect.DeepEqual on a slice of symbolic geometry")
+		}
+		if al.Int() != bl.Int() {
+			return And(av.Nil, bv.Nil)
+		}
+		cs := []*Term{}
+		for i := 0; i < int(al.Int()); i++ {
+			cs = append(cs, e.deepEq(st, st.Obj(av.Obj).Elems[int(ao.Int())+i], st.Obj(bv.Obj).Elems[int(bo.Int())+i], depth+1))
+		}
+		return Or(And(av.Nil, bv.Nil), And(Not(av.Nil), Not(bv.Nil), And(cs...)))
+	case VMap:
+		bv, ok := b.(VMap)
+		if !ok {
+			return False
+		}
+		if av.Obj == bv.Obj {
+			return True
+		}
+		if av.Nil.IsTrue() || bv.Nil.IsTrue() {
+			return And(av.Nil, bv.Nil)
+		}
+		unsupported("reflect.DeepEqual on two different maps")
+	case VOpaque:
+		bv, ok := b.(VOpaque)
+		return BoolC(ok && av.Kind == bv.Kind && opaqueEqual(av.Data, bv.Data))
+	}
+	unsupported("reflect.DeepEqual on %T", a)
+	return nil
+}
+
 func registerReflect(e *Engine) {
+	e.intr["reflect.DeepEqual"] = func(e *Engine, c *CallCtx) []Outcome {
+		return one(c.St, e.deepEq(c.St, c.Args[0], c.Args[1], 0))
+	}
 	e.intr["reflect.TypeOf"] = func(e *Engine, c *CallCtx) []Outcome {
 		i := c.Args[0].(VIface)
 		if i.Nil.IsTrue() {
